@@ -9656,6 +9656,9 @@ def _write_node(node, xml_tree=None, viewport_transform=None):
                 SVG_TAG_STYLE,
             ):
                 continue
+            if key == XLINK_HREF:
+                # The xlink namespace is declared on the root with this literal prefix.
+                key = "xlink:href"
             xml_tree.set(key, str(value))
         return xml_tree
 
